@@ -980,6 +980,12 @@ impl<'a> ZipFile<'a> {
 
 impl<'a> Read for ZipFile<'a> {
     fn read(&mut self, buf: &mut [u8]) -> io::Result<usize> {
+        // A zero-length read must not touch the decoders: the zstd decoder keeps pulling
+        // input until it has produced output, so an empty buffer made it swallow the whole
+        // entry and fail ("incomplete frame") on the next read.
+        if buf.is_empty() {
+            return Ok(0);
+        }
         self.get_reader().read(buf)
     }
 }
